@@ -193,6 +193,15 @@ func validateEncryptedPayload(encryptedInnerData []byte) error {
 		return oops.Code("empty_encrypted_data").
 			Errorf("encrypted inner data cannot be empty")
 	}
+	if len(encryptedInnerData) > ENCRYPTED_LEASESET_MAX_ENCRYPTED_SIZE {
+		// the wire format carries the length in a 16-bit field; a longer payload
+		// would be stored with a wrapped length and could not be read back
+		return oops.Code("encrypted_data_too_long").
+			With("size", len(encryptedInnerData)).
+			With("maximum", ENCRYPTED_LEASESET_MAX_ENCRYPTED_SIZE).
+			Errorf("encrypted inner data size %d > maximum %d",
+				len(encryptedInnerData), ENCRYPTED_LEASESET_MAX_ENCRYPTED_SIZE)
+	}
 	if len(encryptedInnerData) < ENCRYPTED_LEASESET_MIN_ENCRYPTED_SIZE {
 		return oops.Code("encrypted_data_too_short").
 			With("size", len(encryptedInnerData)).
